@@ -187,23 +187,38 @@ theorem charge_avail {w w2 : World} {v : VehicleId} {sid : StationId} {cid : Cha
             rw [(vehicle?_some hveh).2] at hself
             exact ⟨_, (vehicle?_congr hv2 v).trans hself, rfl⟩
 
+/-- the vehicle is no longer waiting in queue `(sid, cid)`: it charges there or - being full - has
+    gone idle -/
+def leftQueue (a : Act) (sid : StationId) (cid : ChargerId) : Prop :=
+  a = .chargingStation sid cid ∨ ∃ d, a = .idle d
+
+theorem enter_idle_stations {w w2 : World} {v : VehicleId} {d : Nat} (h : enter env w v (.idle d) = .ok w2) :
+    w2.sim.stations = w.sim.stations ∧ ∃ veh, w.sim.vehicle? v = some veh ∧ w2.sim.vehicle? v = some { veh with act := .idle d } := by
+  simp only [enter, Outcome.bind_eq, Outcome.bind_eq_ok, Outcome.pure_eq] at h
+  obtain ⟨s2, h1, h2⟩ := h
+  cases h2
+  obtain ⟨veh, hv, hn⟩ := applyAct_self h1
+  obtain ⟨_, _, _, hs, _⟩ := applyAct_fields h1
+  exact ⟨hs, veh, hv, hn⟩
+
 /-- the whole `default_update` of a queueing vehicle never frees a plug; the vehicle starts
-    charging exactly when a plug of its type was free when its turn came (and the update went
-    through) -/
+    charging only when a plug of its type was free when its turn came, and when one was free (and
+    the update went through) it has left the queue -/
 theorem queue_update_spec {w w2 : World} {v : VehicleId} {sid : StationId} {cid : ChargerId} {t : Time}
     {veh : Vehicle} (hwf : w.sim.WF) (hveh : w.sim.vehicle? v = some veh)
     (hact : veh.act = .chargeQueueing sid cid t)
     (h : defaultUpdate env w v (.chargeQueueing sid cid t) = .ok w2) :
     (∀ s c, availOf w2.sim s c ≤ availOf w.sim s c) ∧
     (∀ veh', w2.sim.vehicle? v = some veh' →
-      (veh'.act = .chargingStation sid cid ↔ 0 < availOf w.sim sid cid)) := by
+      (veh'.act = .chargingStation sid cid → 0 < availOf w.sim sid cid) ∧
+      (0 < availOf w.sim sid cid → leftQueue veh'.act sid cid)) := by
   unfold defaultUpdate at h
   split at h
   · next hterm =>
     simp only [Outcome.bind_eq, Outcome.bind_eq_ok] at h
     obtain ⟨next, hnext, w1, htr, h3⟩ := h
     -- the default next state: the station exists and has a free plug
-    have hn : next = .chargingStation sid cid ∧ 0 < availOf w.sim sid cid := by
+    have hn : (next = .chargingStation sid cid ∨ next = .idle 0) ∧ 0 < availOf w.sim sid cid := by
       simp only [defaultNext] at hnext
       split at hnext
       · cases hnext
@@ -212,29 +227,56 @@ theorem queue_update_spec {w w2 : World} {v : VehicleId} {sid : StationId} {cid 
         split at hnext
         · cases hnext
         · next hav =>
-          cases hnext
-          refine ⟨rfl, ?_⟩
-          unfold availOf; rw [hst]
-          exact hasAvailable_iff.mp (by simpa using hav)
-    obtain ⟨rfl, hpos⟩ := hn
+          have hp : 0 < availOf w.sim sid cid := by
+            unfold availOf; rw [hst]
+            exact hasAvailable_iff.mp (by simpa using hav)
+          split at hnext
+          · cases hnext; exact ⟨Or.inr rfl, hp⟩
+          · cases hnext; exact ⟨Or.inl rfl, hp⟩
+    obtain ⟨hnx, hpos⟩ := hn
     unfold transition at htr
     simp only [Outcome.bind_eq, Outcome.bind_eq_ok] at htr
     obtain ⟨s1, hex, hen⟩ := htr
     have a1 := exit_queue_avail hwf hex
     have hwf1 := (exit_sameIds hwf hex).wf hwf
-    have a2 := enter_charging_avail (w := { w with sim := s1 }) hwf1 hen
-    obtain ⟨_, veh1, _, hv1, _, _, hpost⟩ := enter_post hen
-    simp only [EnterPost] at hpost
-    rw [hv1] at h3
-    simp only at h3
-    rw [hpost.1] at h3
-    simp only [performUpdate] at h3
-    obtain ⟨a3, veh2, hv2, hact2⟩ := charge_avail hv1 h3
-    refine ⟨fun a c => by rw [a3]; exact Nat.le_trans (a2 a c) (a1 a c), ?_⟩
-    intro veh' hv'
-    rw [hv2] at hv'
-    cases hv'
-    exact ⟨fun _ => hpos, fun _ => by rw [hact2, hpost.1]⟩
+    rcases hnx with rfl | rfl
+    · have a2 := enter_charging_avail (w := { w with sim := s1 }) hwf1 hen
+      obtain ⟨_, veh1, _, hv1, _, _, hpost⟩ := enter_post hen
+      simp only [EnterPost] at hpost
+      rw [hv1] at h3
+      simp only at h3
+      rw [hpost.1] at h3
+      simp only [performUpdate] at h3
+      obtain ⟨a3, veh2, hv2, hact2⟩ := charge_avail hv1 h3
+      refine ⟨fun a c => by rw [a3]; exact Nat.le_trans (a2 a c) (a1 a c), ?_⟩
+      intro veh' hv'
+      rw [hv2] at hv'
+      cases hv'
+      exact ⟨fun _ => hpos, fun _ => Or.inl (by rw [hact2, hpost.1])⟩
+    · -- the full vehicle leaves the queue for Idle: no plug is touched
+      obtain ⟨hst1, veh1, hv0, hv1⟩ := enter_idle_stations hen
+      rw [hv1] at h3
+      simp only [performUpdate] at h3
+      rw [hv1] at h3
+      simp only at h3
+      split at h3
+      · cases h3
+      · simp only [Outcome.bind_eq, Outcome.bind_eq_ok, Outcome.pure_eq] at h3
+        obtain ⟨s2, h1, h2⟩ := h3
+        cases h2
+        obtain ⟨_, _, hs2, _⟩ := Sim.modifyVehicle_fields h1
+        refine ⟨fun a c => by
+          simp only
+          rw [availOf_congr hs2, availOf_congr hst1]
+          exact a1 a c, ?_⟩
+        intro veh' hv'
+        have hself := modifyVehicle_self h1
+        simp only at hself hv'
+        have hid1 : veh1.id = v := (vehicle?_some hv0).2
+        rw [hid1] at hself
+        rw [hself] at hv'
+        cases hv'
+        exact ⟨fun ha => (by cases ha), fun _ => Or.inr ⟨_, rfl⟩⟩
   · next hterm =>
     -- not terminal: no plug is free; the vehicle idles in the queue
     simp only [performUpdate] at h
@@ -265,9 +307,7 @@ theorem queue_update_spec {w w2 : World} {v : VehicleId} {sid : StationId} {cid 
           have : ¬ 0 < st.availableChargers cid := fun hp => hterm (hasAvailable_iff.mpr hp)
           omega
       rw [hzero, hact]
-      constructor
-      · intro ha; cases ha
-      · intro hp; omega
+      exact ⟨fun ha => (by cases ha), fun hp => (by omega)⟩
 
 end Hive
 
@@ -328,7 +368,8 @@ theorem qfold_spec : ∀ (L : List Vehicle) {w : World}, w.sim.WF → (L.map Veh
 
 /-- **first-come first-served along the processing order**: if `q` (processed after `q'`, same
     station and plug type) ends the phase charging there, then a plug of that type was free when
-    `q'`'s turn came, and `q'` — unless its own update failed — is charging there too -/
+    `q'`'s turn came, and `q'` — unless its own update failed — has left the queue too (it is
+    charging there, or being full it has gone idle) -/
 theorem fifo_fold {pre mid post : List Vehicle} {q' q : Vehicle} {w0 : World} {sid : StationId} {cid : ChargerId}
     {t' t : Time}
     (hwf : w0.sim.WF) (hnd : ((pre ++ q' :: mid ++ q :: post).map Vehicle.id).Nodup)
@@ -339,7 +380,7 @@ theorem fifo_fold {pre mid post : List Vehicle} {q' q : Vehicle} {w0 : World} {s
     0 < availOf (qfold env pre w0).sim sid cid ∧
     ((∃ w2, defaultUpdate env (qfold env pre w0) q'.id q'.act = .ok w2) →
       ∃ veh, (qfold env (pre ++ q' :: mid ++ q :: post) w0).sim.vehicle? q'.id = some veh ∧
-        veh.act = .chargingStation sid cid) := by
+        leftQueue veh.act sid cid) := by
   -- split the fold
   have hsplit : qfold env (pre ++ q' :: mid ++ q :: post) w0
       = qfold env post (stepVehicle env (qfold env mid (stepVehicle env (qfold env pre w0) q'.id q'.act)) q.id q.act) := by
@@ -424,7 +465,7 @@ theorem fifo_fold {pre mid post : List Vehicle} {q' q : Vehicle} {w0 : World} {s
       cases hactend
     · rw [hq] at hok
       have := (queue_update_spec hwf3 hvq3 (by rw [haq, hq]) hok).2 vend (by rw [← hq]; exact hvend)
-      exact this.mp hactend
+      exact this.1 hactend
   have hpos1 : 0 < availOf w1.sim sid cid :=
     Nat.lt_of_lt_of_le hpos3 (Nat.le_trans (ha3 sid cid) (ha2 sid cid))
   refine ⟨hpos1, ?_⟩
@@ -444,7 +485,7 @@ theorem fifo_fold {pre mid post : List Vehicle} {q' q : Vehicle} {w0 : World} {s
     rw [← hid.veh] at hmemv
     obtain ⟨y, hy, hyid⟩ := List.mem_map.mp hmemv
     exact ⟨y, by rw [← hyid]; exact lookup_of_mem (hid.wf hwf1).veh hy⟩
-  have hch := ((queue_update_spec hwf1 hvq' (by rw [haq', hq']) hok').2 vq2 hvq2').mpr hpos1
+  have hch := ((queue_update_spec hwf1 hvq' (by rw [haq', hq']) hok').2 vq2 hvq2').2 hpos1
   refine ⟨vq2, ?_, hch⟩
   rw [hsplit]
   have hq'notmid : q'.id ∉ mid.map Vehicle.id := by
